@@ -41,6 +41,10 @@ def _build(env, family, g):
     nf, nd = len(f), len(d)
     dt = object if env.sym else float
     vals = np.zeros((nf, nd), dtype=dt)
+    if env.sym:
+        from vt.symreal.sym import CF
+        for idx in np.ndindex(vals.shape):
+            vals[idx] = CF(0.0)   # concrete cells inside object arrays follow numpy's float semantics (x/0 -> inf/nan)
     if family == "zero":
         pass
     elif family == "constant":
